@@ -148,6 +148,22 @@ def c08_extra(tier, seed, cov, notes, ctx):
     return viol
 
 
+def c06_extra(tier, seed, cov, notes, ctx):
+    """The property's own quantifier on the crate: every frame after every preceding frame, and after clear()."""
+    import re
+    rc, out, dt = ctx.sh([ctx.HARNESS, 'framepairs'], timeout=1800)
+    viol = []
+    m = re.search(r'N framepairs comparisons (\d+) mismatches (\d+)', out)
+    if m:
+        cov['traces_validated_against_impl'] = cov.get('traces_validated_against_impl', 0) + int(m.group(1))
+        cov['framepairs'] = {'comparisons': int(m.group(1)), 'mismatches': int(m.group(2)), 'seconds': round(dt, 1)}
+    for mm in list(re.finditer(r'^M (pair|clear) (\S+) expected_last (.*?) got (.*)$', out, re.M))[:3]:
+        rep = {'property': 'C06', 'kind': 'bits', 'input_text': 'bit ops ' + mm.group(2), 'harness_cmd': ['replay', 'bits', mm.group(2)],
+               'expected_text': 'ten times none, then ' + mm.group(3), 'crate_actual': mm.group(4), 'confirmed_on_crate': True}
+        viol.append((ctx.write_replay('C06', 'cex', rep), ''))
+    return viol
+
+
 PROPS = {
     'C20': {
         'level': 'other',
@@ -219,7 +235,7 @@ PROPS = {
     },
     'C01': scan_prop('C01', 2, ['Check/C01']),
     'C02': scan_prop('C02', 1, ['Check/C02']),
-    'C06': dict(ps2_prop('C06', ['Check/C06']), replay_kind='bits'),
+    'C06': dict(ps2_prop('C06', ['Check/C06']), replay_kind='bits', extra=c06_extra, extra_always=True),
     'C05': {
         'lib': LIB + ['Spec/Frame', 'Check/C05'],
         'syn': ['Props/C05'], 'needs_syn': ['Syn/Ps2', 'Check/C05'],
